@@ -29,8 +29,15 @@ def outcomeOf (tbl : List (String × Outcome)) (h : String) : Outcome :=
   | some (_, o) => o
   | none => .otherErr
 
-/-- predicates of the property on one observed request -/
-def boundMonitors (what : String) (hosts contacted : List String) (bound : Nat) : List String :=
+/-- requests counted by the servers → hosts tried: consecutive requests to one host (a retry, the pages of
+    a paginated List) are one attempt on that host -/
+def collapse : List String → List String
+  | a :: b :: t => if a = b then collapse (b :: t) else a :: collapse (b :: t)
+  | l => l
+
+/-- predicates of the property on one observed request (`contacted0` = requests as the servers saw them) -/
+def boundMonitors (what : String) (hosts contacted0 : List String) (bound : Nat) : List String :=
+  let contacted := collapse contacted0
   (if contacted.length > bound then [s!"side=impl key=too-many-hosts {what} contacted {contacted.length} hosts ({listTok contacted}), bound {bound}"] else []) ++
   (if contacted.any (!hosts.contains ·) then [s!"side=impl key=contacted-non-member {what} contacted {listTok contacted}, current hosts {listTok hosts}"] else []) ++
   (if contacted.eraseDups.length ≠ contacted.length then [s!"side=impl key=contacted-twice {what} contacted {listTok contacted}"] else [])
@@ -94,7 +101,54 @@ def stepBloc (_ : Unit) (kind : String) (args impl : List String) : Option (Unit
     | _ => none
   | _, _ => none
 
-def blocMachine : Machine := { σ := Unit, name := "bloc", init := fun _ => some (), step := stepBloc }
+def walk? (m : String) : Option Walk :=
+  if m = "Stat" ∨ m = "GetMetaInfo" ∨ m = "PrefetchBlob" then some .untilOk
+  else if m = "OverwriteMetaInfo" then some .all
+  else if m = "CheckReadiness" then some .one
+  else none
+
+/-- `one request <method> <hosts> <host=o|e…> <replicas named by the lookup> <replica=o|e…>
+      => <ok|err|empty> <cluster hosts asked for locations, in order> <replicas contacted, in order>` -/
+def stepRequest (args impl : List String) : Option (Unit × StepOut) :=
+  match args, impl with
+  | ["request", m, ht, ot, rt, rot], [_, lt, rct] => do
+    let w ← walk? m
+    let hosts := list? ht
+    let ltbl ← outcomes? ot
+    let replicas := list? rt
+    let rtbl ← outcomes? rot
+    let lo := fun (_ : Nat) (h : String) => outcomeOf ltbl h
+    let ro := fun (_ : Nat) (h : String) => outcomeOf rtbl h
+    let looked := list? lt
+    let rcont := list? rct
+    let admL := looked.all (hosts.contains ·) && looked.eraseDups.length == looked.length && looked.length ≤ min 3 hosts.length
+    let enum1 := if admL then looked ++ hosts.filter (!looked.contains ·) else sortStr hosts
+    -- the visiting order of the replicas (Stat shuffles, CheckReadiness picks one) is the implementation's choice
+    let admR := rcont.all (replicas.contains ·) && rcont.eraseDups.length == rcont.length
+    let order := if admR then rcont ++ replicas.filter (!rcont.contains ·) else replicas
+    let (l, r) := clusterRequest w lo ro enum1 id replicas (fun _ => order)
+    let resTok :=
+      if l.result.isNone then "empty"
+      else if l.result ≠ some .ok then "err"
+      else match w with
+        | .all => if r.contacted.all (fun a => outcomeOf rtbl a == .ok) then "ok" else "err"
+        | _ => if r.result = some .ok then "ok" else "err"
+    let pf := boundMonitors s!"blobclient.clusterClient.{m} (location lookup)" hosts looked 3 ++
+      (if rcont.any (!replicas.contains ·) then [s!"side=impl key=replica-not-named {m} contacted {listTok rcont}, the lookup named {listTok replicas}"] else []) ++
+      (if (collapse rcont).eraseDups.length ≠ (collapse rcont).length then [s!"side=impl key=replica-contacted-twice {m} contacted {listTok rcont}"] else []) ++
+      (if !rcont.isEmpty ∧ l.result ≠ some .ok then [s!"side=impl key=replicas-without-lookup {m} contacted {listTok rcont} although no location lookup succeeded"] else []) ++
+      (if (looked ++ rcont).eraseDups.length > 3 ∨ rcont.any (!hosts.contains ·) then
+        [s!"side=impl key=blobclient-request-visits-replicas {m} asked {listTok looked} for locations and then contacted the replicas {listTok rcont}: {(looked ++ rcont).eraseDups.length} hosts, replicas are not taken from the client's host list"] else [])
+    let br := s!"request.{m}"
+    pure ((), { obs := [resTok, listTok l.contacted, listTok r.contacted], branch := br, propfails := pf })
+  | _, _ => none
+
+def stepBloc2 (u : Unit) (kind : String) (args impl : List String) : Option (Unit × StepOut) :=
+  match kind, args with
+  | "one", "request" :: _ => stepRequest args impl
+  | _, _ => stepBloc u kind args impl
+
+def blocMachine : Machine := { σ := Unit, name := "bloc", init := fun _ => some (), step := stepBloc2 }
 
 /-! #### tagclient cluster client -/
 def stepTag (_ : Unit) (kind : String) (args impl : List String) : Option (Unit × StepOut) :=
@@ -106,7 +160,8 @@ def stepTag (_ : Unit) (kind : String) (args impl : List String) : Option (Unit 
     let oc := fun (_ : Nat) (h : String) => outcomeOf tbl h
     match impl with
     | [_, ct, _] =>
-      let contacted := list? ct
+      let contactedRaw := list? ct
+      let contacted := collapse contactedRaw
       let bound := if mode = "once" then 1 else 3
       let admissible := contacted.all (hosts.contains ·) && contacted.eraseDups.length == contacted.length
         && contacted.length ≤ min bound hosts.length
@@ -118,11 +173,13 @@ def stepTag (_ : Unit) (kind : String) (args impl : List String) : Option (Unit 
         | some .ok => "ok"
         | some .netErr => "neterr"
         | some .otherErr => "err"
-      let pf := boundMonitors s!"tagclient.{method}" hosts contacted bound ++
+      let pf := boundMonitors s!"tagclient.{method}" hosts contactedRaw bound ++
         (if mode = "once" ∧ !hosts.isEmpty ∧ contacted.length ≠ 1 then
           [s!"side=impl key=once-not-one tagclient.{method} (single attempt) contacted {listTok contacted}"] else [])
       let br := s!"{mode}.{resTok}.after{run.contacted.length}"
-      pure ((), { obs := [resTok, listTok run.contacted, listTok (sortStr run.failed)], branch := br, propfails := pf })
+      -- repeated requests to the host just tried are followed as they are
+      let ctTok := if run.contacted = contacted then ct else listTok run.contacted
+      pure ((), { obs := [resTok, ctTok, listTok (sortStr run.failed)], branch := br, propfails := pf })
     | _ => none
   | _, _ => none
 
